@@ -97,6 +97,37 @@ def shares_anywhere(root):
     return walk(root)
 
 
+def snapshot(o):
+    """copy of the containers, same leaf objects (opaque objects keep their identity)"""
+    if isinstance(o, Mapping):
+        return o.__class__((k, snapshot(v)) for k, v in o.items())
+    if isinstance(o, (list, tuple)):
+        return o.__class__(snapshot(x) for x in o)
+    return o
+
+
+def first_list_merge(ctx, inc):
+    """follow the FIRST item of each incoming level while it is a literal key that merges a mapping
+    into an existing mapping; if it ends in list-into-existing-list, return (path, incoming list).
+    Nothing has been merged before that item: the context it is formatted against is the one
+    the operation started with."""
+    path, cur, level = [], ctx, inc
+    while isinstance(level, Mapping) and len(level):
+        k, v = next(iter(level.items()))
+        if not isinstance(k, (str, int)) or isinstance(k, bool) or (isinstance(k, str) and ('{' in k or '}' in k)):
+            return None
+        if not (isinstance(cur, Mapping) and k in cur):
+            return None
+        path.append(k)
+        if isinstance(v, list) and isinstance(cur[k], list):
+            return path, v
+        if isinstance(v, Mapping) and isinstance(cur[k], Mapping):
+            cur, level = cur[k], v
+            continue
+        return None
+    return None
+
+
 def step_key(case):
     return 'contextMerge' if case['op'] == 'merge' else 'defaults'
 
@@ -161,8 +192,22 @@ def run_once(case):
     before_ctx = canon(dict(ctx))
     before_inc = canon(inc)
     ids_before = [id(x) for x in nodes(inc)]
+    pre = None
+    if case['op'] == 'merge':
+        flm = first_list_merge(ctx, inc)
+        if flm is not None:
+            from pypyr.context import Context
+            try:
+                # the incoming members formatted against the context as it is BEFORE the merge
+                out = Context(snapshot(dict(ctx))).get_formatted_value(snapshot(flm[1]))
+                if not is_cyclic(out):
+                    pre = {'path': [canon(k) for k in flm[0]], 'members': canon(out)}
+            except Exception:
+                pre = None
     res = call(case, ctx, inc)
     obs = {'res': res, 'ctx_before': before_ctx}
+    if pre is not None:
+        obs['pre_formatted_list'] = pre
     if is_cyclic(dict(ctx)) or is_cyclic(inc):
         obs['cyclic'] = True
         return obs
